@@ -43,6 +43,9 @@ pub struct SingleNodeTaskAssignment {
     pub assigned_tasks: Set<TaskId>,
     pub free_resources: WorkerResources,
     pub prefilled_tasks: Set<TaskId>,
+    /// Number of `RetractTasks` messages the worker has not answered yet. Until the answer
+    /// arrives the worker may still start the tasks named in them from its backlog
+    pub retractions_in_flight: u32,
 }
 
 pub enum WorkerAssignment {
@@ -56,6 +59,7 @@ impl WorkerAssignment {
             assigned_tasks: Default::default(),
             free_resources: wr.clone(),
             prefilled_tasks: Default::default(),
+            retractions_in_flight: 0,
         })
     }
 }
@@ -180,8 +184,13 @@ impl Worker {
 
     pub fn is_free(&self) -> bool {
         (match &self.assignment {
-            // Prefilled tasks are parked on the worker, so it is not free either
-            WorkerAssignment::Sn(a) => a.assigned_tasks.is_empty() && a.prefilled_tasks.is_empty(),
+            // Prefilled tasks are parked on the worker, so it is not free either; the same holds
+            // for tasks that are being retracted from it
+            WorkerAssignment::Sn(a) => {
+                a.assigned_tasks.is_empty()
+                    && a.prefilled_tasks.is_empty()
+                    && a.retractions_in_flight == 0
+            }
             WorkerAssignment::Mn(_a) => false,
         }) && !self.is_stopping()
     }
@@ -200,6 +209,18 @@ impl Worker {
         match &mut self.assignment {
             WorkerAssignment::Sn(a) => assert!(a.prefilled_tasks.insert(task_id)),
             WorkerAssignment::Mn(_) => unreachable!(),
+        }
+    }
+
+    pub fn retraction_sent(&mut self) {
+        if let WorkerAssignment::Sn(a) = &mut self.assignment {
+            a.retractions_in_flight += 1;
+        }
+    }
+
+    pub fn retraction_answered(&mut self) {
+        if let WorkerAssignment::Sn(a) = &mut self.assignment {
+            a.retractions_in_flight = a.retractions_in_flight.saturating_sub(1);
         }
     }
 
